@@ -529,6 +529,7 @@ func (s *Sched) MarkDone(obj any) {
 			for j := i; j+1 < len(s.inUse); j++ {
 				s.inUse[j] = s.inUse[j+1]
 			}
+			s.inUse[len(s.inUse)-1] = inUseEnt{}
 			s.inUse = s.inUse[:len(s.inUse)-1]
 			return
 		}
